@@ -249,4 +249,692 @@ theorem lemma_leaf_fld (hP : FloatSane P) (g : Getter) (hs : srcOK g.src = true)
     | _ => simp [leafTy] at hleaf
   | struct fs => simp [leafTy] at hleaf
 
+
+/-! ### moving between a struct and the value of one of its struct fields -/
+
+/-- how the initial value of the enclosing struct relates to the initial value `init'` the
+    sub-struct was bound from, leaf by leaf: the same, or nothing (nil pointer) where `init'` is a
+    freshly allocated zero value -/
+def InitRel (Init : List Val) (k : Nat) (init' : Val) (its : List Item) : Prop :=
+  ∀ l, Item.leaf l ∈ its → valAt (.struct Init) (k :: l.path) = valAt init' l.path ∨
+    (valAt (.struct Init) (k :: l.path) = none ∧ (valAt init' l.path = none ∨ valAt init' l.path = some (zero l.ty)))
+
+def ResRel (Res : List Val) (k : Nat) (res' : Val) (its : List Item) : Prop :=
+  ∀ l, Item.leaf l ∈ its → valAt (.struct Res) (k :: l.path) = valAt res' l.path
+
+theorem lemma_keyed_under (g : Getter) (k : Nat) (l : Leaf) :
+    keyed g (l.under k) = { keyed g l with path := k :: (keyed g l).path, names := (keyed g l).names } := rfl
+
+theorem lemma_keyed_below (g : Getter) (k : Nat) (name p : Bytes) (l : Leaf) :
+    keyed g (l.below k name p) =
+      { keyed (g.push p) l with path := k :: (keyed (g.push p) l).path, names := name :: l.names } := by
+  simp [keyed, Leaf.below, Getter.push, List.map_map, Function.comp_def, List.append_assoc]
+
+theorem lemma_amb_path (s : Src) (l : Leaf) (q : List Nat) (ns : List Bytes) :
+    ambiguous s { l with path := q, names := ns } = ambiguous s l := rfl
+
+theorem lemma_under_ok (g : Getter) (d k : Nat) (its : List Item) (Init Res : List Val) (init' res' : Val)
+    (hi : InitRel Init k init' its) (hr : ResRel Res k res' its)
+    (h : ItemsOK P cfg g d its init' res') :
+    ItemsOK P cfg g d (its.map (Item.under k)) (.struct Init) (.struct Res) := by
+  obtain ⟨h1, h2⟩ := h
+  constructor
+  · intro l hl
+    simp only [List.mem_map] at hl
+    obtain ⟨x, hx, hxl⟩ := hl
+    cases x with
+    | node n => simp [Item.under] at hxl
+    | leaf l0 =>
+      simp only [Item.under, Item.leaf.injEq] at hxl
+      subst hxl
+      rw [lemma_keyed_under, lemma_amb_path]
+      have ht := lemma_transfer P cfg g.src (keyed g l0) k (keyed g l0).names (.struct Init) (.struct Res) init' res'
+        (hr l0 hx) (hi l0 hx)
+      rcases h1 l0 hx with h | ⟨e, he, hh⟩
+      · exact Or.inl h
+      · exact Or.inr ⟨e, by rw [ht.1]; exact he, ht.2 e hh⟩
+  · intro n hn
+    simp only [List.mem_map] at hn
+    obtain ⟨x, hx, hxl⟩ := hn
+    cases x with
+    | leaf l0 => simp [Item.under] at hxl
+    | node n0 =>
+      simp only [Item.under, Item.node.injEq] at hxl
+      subst hxl
+      exact h2 n0 hx
+
+theorem lemma_under_err (g : Getter) (d k : Nat) (its : List Item) (Init : List Val) (init' : Val) (e : Err)
+    (hi : InitRel Init k init' its) (h : ItemsErr P cfg g d its init' e) :
+    ItemsErr P cfg g d (its.map (Item.under k)) (.struct Init) e := by
+  rcases h with ⟨l, hl, c, hc, hh⟩ | ⟨n, hn, hd, he⟩
+  · left
+    refine ⟨l.under k, List.mem_map.2 ⟨.leaf l, hl, rfl⟩, c, hc, ?_⟩
+    rw [lemma_keyed_under, lemma_amb_path]
+    rw [lemma_transfer_expect P cfg g.src (keyed g l) k (keyed g l).names (.struct Init) init' (hi l hl)]
+    exact hh
+  · right
+    exact ⟨n, List.mem_map.2 ⟨.node n, hn, rfl⟩, hd, he⟩
+
+
+theorem lemma_below_ok (g : Getter) (d k : Nat) (name p : Bytes) (its : List Item) (Init Res : List Val) (init' res' : Val)
+    (hi : InitRel Init k init' its) (hr : ResRel Res k res' its) (hd : d + 1 ≤ cfg.maxDepth)
+    (h : ItemsOK P cfg (g.push p) (d + 1) its init' res') :
+    ItemsOK P cfg g d (.node { names := [name], depth := 1 } :: its.map (Item.below k name p)) (.struct Init) (.struct Res) := by
+  obtain ⟨h1, h2⟩ := h
+  constructor
+  · intro l hl
+    simp only [List.mem_cons, reduceCtorEq, false_or, List.mem_map] at hl
+    obtain ⟨x, hx, hxl⟩ := hl
+    cases x with
+    | node n => simp [Item.below] at hxl
+    | leaf l0 =>
+      simp only [Item.below, Item.leaf.injEq] at hxl
+      subst hxl
+      rw [lemma_keyed_below, lemma_amb_path]
+      have ht := lemma_transfer P cfg g.src (keyed (g.push p) l0) k (name :: l0.names) (.struct Init) (.struct Res) init' res'
+        (hr l0 hx) (hi l0 hx)
+      rcases h1 l0 hx with h | ⟨e, he, hh⟩
+      · exact Or.inl h
+      · exact Or.inr ⟨e, by rw [ht.1]; exact he, ht.2 e hh⟩
+  · intro n hn
+    simp only [List.mem_cons, Item.node.injEq, List.mem_map] at hn
+    rcases hn with rfl | ⟨x, hx, hxl⟩
+    · exact hd
+    · cases x with
+      | leaf l0 => simp [Item.below] at hxl
+      | node n0 =>
+        simp only [Item.below, Item.node.injEq] at hxl
+        subst hxl
+        have := h2 n0 hx
+        simp only
+        omega
+
+theorem lemma_below_err (g : Getter) (d k : Nat) (name p : Bytes) (its : List Item) (Init : List Val) (init' : Val) (e : Err)
+    (hi : InitRel Init k init' its) (h : ItemsErr P cfg (g.push p) (d + 1) its init' e) :
+    ItemsErr P cfg g d (.node { names := [name], depth := 1 } :: its.map (Item.below k name p)) (.struct Init) (.bind name e) := by
+  rcases h with ⟨l, hl, c, hc, hh⟩ | ⟨n, hn, hd, he⟩
+  · left
+    refine ⟨l.below k name p, List.mem_cons_of_mem _ (List.mem_map.2 ⟨.leaf l, hl, rfl⟩), c, ?_, ?_⟩
+    · rw [hc]; rfl
+    · rw [lemma_keyed_below, lemma_amb_path,
+        lemma_transfer_expect P cfg g.src (keyed (g.push p) l) k (name :: l.names) (.struct Init) init' (hi l hl)]
+      exact hh
+  · right
+    refine ⟨{ names := name :: n.names, depth := n.depth + 1 },
+      List.mem_cons_of_mem _ (List.mem_map.2 ⟨.node n, hn, rfl⟩), by simp only; omega, ?_⟩
+    rw [he]; rfl
+
+
+theorem lemma_items_paths (sub : List Fld) (l : Leaf) (hl : Item.leaf l ∈ itemsFs tag 0 sub) :
+    (∃ a r, l.path = a :: r) ∧ ZeroLike (.struct (zeroFs sub)) l := by
+  obtain ⟨j, q, hq, hz⟩ := lemma_zero_fs tag sub 0 l hl
+  exact ⟨⟨_, _, hq⟩, hz (zeroFs sub) (fun j => by simp)⟩
+
+theorem lemma_initrel_same (Init : List Val) (k : Nat) (v : Val) (its : List Item) (hk : Init[k]? = some v) :
+    InitRel Init k v its := fun l _ => Or.inl (lemma_valAt_cons Init k l.path v hk)
+
+theorem lemma_initrel_ptr (Init : List Val) (k : Nat) (v : Val) (its : List Item) (hk : Init[k]? = some (.ptr v))
+    (hne : ∀ l, Item.leaf l ∈ its → ∃ a r, l.path = a :: r) : InitRel Init k v its := by
+  intro l hl
+  obtain ⟨a, r, hp⟩ := hne l hl
+  left
+  rw [lemma_valAt_cons Init k l.path _ hk, hp, lemma_valAt_ptr]
+
+theorem lemma_initrel_nil (Init : List Val) (k : Nat) (init' : Val) (its : List Item) (hk : Init[k]? = some .nil)
+    (hz : ∀ l, Item.leaf l ∈ its → (∃ a r, l.path = a :: r) ∧ ZeroLike init' l) : InitRel Init k init' its := by
+  intro l hl
+  obtain ⟨⟨a, r, hp⟩, hzl⟩ := hz l hl
+  right
+  refine ⟨?_, hzl⟩
+  rw [lemma_valAt_cons Init k l.path _ hk, hp, lemma_valAt_nil]
+
+theorem lemma_resrel_same (Res : List Val) (k : Nat) (v : Val) (its : List Item) (hk : Res[k]? = some v) :
+    ResRel Res k v its := fun l _ => lemma_valAt_cons Res k l.path v hk
+
+theorem lemma_resrel_ptr (Res : List Val) (k : Nat) (v : Val) (its : List Item) (hk : Res[k]? = some (.ptr v))
+    (hne : ∀ l, Item.leaf l ∈ its → ∃ a r, l.path = a :: r) : ResRel Res k v its := by
+  intro l hl
+  obtain ⟨a, r, hp⟩ := hne l hl
+  rw [lemma_valAt_cons Res k l.path _ hk, hp, lemma_valAt_ptr]
+
+
+/-! ### an embedded nil pointer none of whose promoted fields receives a value -/
+
+/-- the item is a leaf the oracle expects untouched -/
+def Untouched (g : Getter) : Item → Prop
+  | .leaf l => (∃ a r, l.path = a :: r) ∧
+      (ambiguous g.src (keyed g l) = true ∨ ∀ m0, none ∈ (expectV P cfg g.src (keyed g l) m0).oks)
+  | .node _ => False
+
+theorem lemma_untouched_leaf (g : Getter) (hs : srcOK g.src = true) (pre : List Nat) (k : Nat) (h : FieldHdr) (t : Ty)
+    (hleaf : leafTy t = true)
+    (hu : ∀ f ∈ (if !h.exported then [] else (mkInfo P tag (pre ++ [k]) h t).toList), wants g f = false) :
+    ∀ x ∈ leafItems tag k h t, Untouched P cfg g x := by
+  intro x hx
+  unfold leafItems at hx
+  by_cases hex : h.exported = true
+  · simp only [hex, Bool.not_true, Bool.false_eq_true, if_false] at hx hu
+    have link := lemma_mkInfo_link P tag (pre ++ [k]) h t
+    cases htn : tagNames (h.tag tag) h.name (tag == .form) with
+    | none => rw [htn] at hx; cases hx
+    | some pa =>
+      obtain ⟨p, as⟩ := pa
+      rw [htn] at link hx
+      simp only [List.mem_singleton] at hx
+      subst hx
+      obtain ⟨f, hmk, h1, h2, h3, h4, h5, h6⟩ := link
+      have hwf := hu f (by simp [hmk])
+      have hl : LeafLink P g f (keyed g (leafAt k h t p as)) :=
+        { keys := by simp [keyed, leafAt, h1, h2]
+          ty := by simp [keyed, leafAt, h4]
+          dflt := by simp [keyed, leafAt, h5]
+          nested := by simp [keyed, leafAt]
+          td := by rw [h6, h4, h5] }
+      refine ⟨⟨k, [], rfl⟩, ?_⟩
+      by_cases ha : ambiguous g.src (keyed g (leafAt k h t p as)) = true
+      · exact Or.inl ha
+      · right
+        intro m0
+        rcases lemma_unwanted P cfg g hs f _ hl (by rw [h4]; exact hleaf) hwf m0 with h | h
+        · exact absurd h ha
+        · exact h
+  · have hex' : h.exported = false := by simpa using hex
+    simp [hex'] at hx
+
+theorem lemma_untouched_under (g : Getter) (k : Nat) (its : List Item) (h : ∀ x ∈ its, Untouched P cfg g x) :
+    ∀ x ∈ its.map (Item.under k), Untouched P cfg g x := by
+  intro x hx
+  simp only [List.mem_map] at hx
+  obtain ⟨y, hy, hyx⟩ := hx
+  subst hyx
+  have := h y hy
+  cases y with
+  | node n => exact this
+  | leaf l =>
+    obtain ⟨⟨a, r, hp⟩, h2⟩ := this
+    exact ⟨⟨k, l.path, rfl⟩, h2⟩
+
+mutual
+theorem lemma_untouched_fld (g : Getter) (hs : srcOK g.src = true) (k : Nat) (h : FieldHdr) :
+    ∀ (t : Ty) (pre : List Nat), inGrammar t = true →
+      (∀ f ∈ flattenFld P tag pre k h t, wants g f = false) → ∀ x ∈ itemsFld tag k h t, Untouched P cfg g x
+  | .struct sub, pre, hg, hu => by
+    unfold flattenFld at hu
+    unfold itemsFld
+    by_cases hex : h.exported = true
+    · simp only [hex, Bool.not_true, Bool.false_eq_true, if_false] at hu ⊢
+      by_cases han : h.anon = true
+      · simp only [han, if_true] at hu ⊢
+        exact lemma_untouched_under P cfg g k _
+          (lemma_untouched_fs g hs sub (pre ++ [k]) 0 (by simpa [inGrammar] using hg) hu)
+      · have han' : h.anon = false := by simpa using han
+        simp only [han', Bool.false_eq_true, if_false] at hu ⊢
+        have link := lemma_mkInfo_link P tag (pre ++ [k]) h (.struct sub)
+        cases htn : tagNames (h.tag tag) h.name (tag == .form) with
+        | none => intro x hx; cases hx
+        | some pa =>
+          obtain ⟨p, as⟩ := pa
+          rw [htn] at link
+          obtain ⟨f, hmk, _, _, _, h4, _, _⟩ := link
+          have := hu f (by simp [hmk])
+          simp [wants, h4, isStructTy, structFields?] at this
+    · have hex' : h.exported = false := by simpa using hex
+      simp [hex']
+  | .ptr (.struct sub), pre, hg, hu => by
+    unfold flattenFld at hu
+    unfold itemsFld
+    by_cases hex : h.exported = true
+    · simp only [hex, Bool.not_true, Bool.false_eq_true, if_false] at hu ⊢
+      by_cases han : h.anon = true
+      · simp only [han, if_true] at hu ⊢
+        exact lemma_untouched_under P cfg g k _
+          (lemma_untouched_fs g hs sub (pre ++ [k]) 0 (by simpa [inGrammar] using hg) hu)
+      · have han' : h.anon = false := by simpa using han
+        simp only [han', Bool.false_eq_true, if_false] at hu ⊢
+        have link := lemma_mkInfo_link P tag (pre ++ [k]) h (.ptr (.struct sub))
+        cases htn : tagNames (h.tag tag) h.name (tag == .form) with
+        | none => intro x hx; cases hx
+        | some pa =>
+          obtain ⟨p, as⟩ := pa
+          rw [htn] at link
+          obtain ⟨f, hmk, _, _, _, h4, _, _⟩ := link
+          have := hu f (by simp [hmk])
+          simp [wants, h4, isStructTy, structFields?] at this
+    · have hex' : h.exported = false := by simpa using hex
+      simp [hex']
+  | .prim p, pre, hg, hu => by
+    have : itemsFld tag k h (.prim p) = leafItems tag k h (.prim p) := by
+      simp only [itemsFld, leafItems, leafAt]
+      cases h.exported <;> cases tagNames (h.tag tag) h.name (tag == .form) <;> rfl
+    rw [this]
+    exact lemma_untouched_leaf P cfg tag g hs pre k h _ (by simpa [inGrammar] using hg) (by simpa [flattenFld] using hu)
+  | .slice e, pre, hg, hu => by
+    have : itemsFld tag k h (.slice e) = leafItems tag k h (.slice e) := by
+      simp only [itemsFld, leafItems, leafAt]
+      cases h.exported <;> cases tagNames (h.tag tag) h.name (tag == .form) <;> rfl
+    rw [this]
+    exact lemma_untouched_leaf P cfg tag g hs pre k h _ (by simpa [inGrammar] using hg) (by simpa [flattenFld] using hu)
+  | .map e, pre, hg, hu => by
+    have : itemsFld tag k h (.map e) = leafItems tag k h (.map e) := by
+      simp only [itemsFld, leafItems, leafAt]
+      cases h.exported <;> cases tagNames (h.tag tag) h.name (tag == .form) <;> rfl
+    rw [this]
+    exact lemma_untouched_leaf P cfg tag g hs pre k h _ (by simpa [inGrammar] using hg) (by simpa [flattenFld] using hu)
+  | .ptr (.prim p), pre, hg, hu => by
+    have : itemsFld tag k h (.ptr (.prim p)) = leafItems tag k h (.ptr (.prim p)) := by
+      simp only [itemsFld, leafItems, leafAt]
+      cases h.exported <;> cases tagNames (h.tag tag) h.name (tag == .form) <;> rfl
+    rw [this]
+    exact lemma_untouched_leaf P cfg tag g hs pre k h _ (by simpa [inGrammar] using hg) (by simpa [flattenFld] using hu)
+  | .ptr (.ptr e), pre, hg, hu => by simp [inGrammar, leafTy] at hg
+  | .ptr (.slice e), pre, hg, hu => by
+    have : itemsFld tag k h (.ptr (.slice e)) = leafItems tag k h (.ptr (.slice e)) := by
+      simp only [itemsFld, leafItems, leafAt]
+      cases h.exported <;> cases tagNames (h.tag tag) h.name (tag == .form) <;> rfl
+    rw [this]
+    exact lemma_untouched_leaf P cfg tag g hs pre k h _ (by simpa [inGrammar] using hg) (by simpa [flattenFld] using hu)
+  | .ptr (.map e), pre, hg, hu => by
+    have : itemsFld tag k h (.ptr (.map e)) = leafItems tag k h (.ptr (.map e)) := by
+      simp only [itemsFld, leafItems, leafAt]
+      cases h.exported <;> cases tagNames (h.tag tag) h.name (tag == .form) <;> rfl
+    rw [this]
+    exact lemma_untouched_leaf P cfg tag g hs pre k h _ (by simpa [inGrammar] using hg) (by simpa [flattenFld] using hu)
+theorem lemma_untouched_fs (g : Getter) (hs : srcOK g.src = true) :
+    ∀ (fs : List Fld) (pre : List Nat) (i : Nat), inGrammarFs fs = true →
+      (∀ f ∈ flattenFs P tag pre i fs, wants g f = false) → ∀ x ∈ itemsFs tag i fs, Untouched P cfg g x
+  | [], pre, i, _, _ => by simp [itemsFs]
+  | (h, t) :: rest, pre, i, hg, hu => by
+    simp only [inGrammarFs, Bool.and_eq_true] at hg
+    simp only [flattenFs, List.mem_append] at hu
+    simp only [itemsFs, List.mem_append]
+    intro x hx
+    rcases hx with hx | hx
+    · exact lemma_untouched_fld g hs i h t pre hg.1 (fun f hf => hu f (Or.inl hf)) x hx
+    · exact lemma_untouched_fs g hs rest pre (i+1) hg.2 (fun f hf => hu f (Or.inr hf)) x hx
+end
+
+
+/-! ### a nested struct field -/
+
+/-- the treatment of nested structs meets the oracle at depth `d` -/
+def NestSpec (nest : Nest) (d : Nat) : Prop :=
+  ∀ (nfs : List Fld) (ivs : List Val) (g : Getter), wts nfs ivs = true → inGrammarFs nfs = true → srcOK g.src = true →
+    match nest nfs (.struct ivs) g d with
+    | .ok v => ItemsOK P cfg g d (itemsFs tag 0 nfs) (.struct ivs) v
+    | .err e => ItemsErr P cfg g d (itemsFs tag 0 nfs) (.struct ivs) e
+    | .panic => False
+
+/-- the items of a nested (non-embedded) struct field -/
+def nestedItems (k : Nat) (h : FieldHdr) (nfs : List Fld) : List Item :=
+  match tagNames (h.tag tag) h.name (tag == .form) with
+  | none => []
+  | some (p, _) => .node { names := [h.name], depth := 1 } :: (itemsFs tag 0 nfs).map (Item.below k h.name p)
+
+theorem lemma_nested_fld (g : Getter) (hs : srcOK g.src = true) (d : Nat)
+    (hn : d + 1 ≤ cfg.maxDepth → NestSpec P cfg tag nest (d + 1))
+    (k : Nat) (h : FieldHdr) (nfs : List Fld) (isPtr : Bool) (iv : Val) (hg : inGrammarFs nfs = true)
+    (hw : wt (if isPtr then .ptr (.struct nfs) else .struct nfs) iv = true) :
+    FldSpec P cfg g d k (nestedItems tag k h nfs) iv
+      (refLeaf P cfg nest tag g d h (if isPtr then .ptr (.struct nfs) else .struct nfs) iv) := by
+  have link := lemma_mkInfo_link P tag [] h (if isPtr then .ptr (.struct nfs) else .struct nfs)
+  unfold nestedItems refLeaf
+  cases htn : tagNames (h.tag tag) h.name (tag == .form) with
+  | none =>
+    rw [htn] at link
+    simp only [link]
+    intro init res _ _
+    exact lemma_itemsOK_nil P cfg g d _ _
+  | some pa =>
+    obtain ⟨p, as⟩ := pa
+    rw [htn] at link
+    obtain ⟨f, hmk, h1, h2, h3, h4, h5, h6⟩ := link
+    have hst : isStructTy f.ty = true := by rw [h4]; cases isPtr <;> simp [isStructTy, structFields?]
+    have hmp : isMapTy f.ty = false := by rw [h4]; cases isPtr <;> simp [isMapTy]
+    have hwants : wants g f = true := by simp [wants, hst]
+    have hnfs : structTyOf f.ty = nfs := by rw [h4]; cases isPtr <;> simp [structTyOf]
+    simp only [hmk, hwants, Bool.not_true, Bool.false_eq_true, if_false]
+    unfold fieldAction
+    simp only [hmp, hst, Bool.false_eq_true, if_false, if_true, hnfs]
+    by_cases hdep : cfg.maxDepth < d + 1
+    · -- too deep: the field is reported, nothing is bound
+      simp only [hdep, if_true]
+      intro init _
+      right
+      exact ⟨{ names := [h.name], depth := 1 }, by simp, hdep, by rw [h3]; rfl⟩
+    · simp only [hdep, if_false]
+      have hd : d + 1 ≤ cfg.maxDepth := by omega
+      have hspec := hn hd
+      -- the struct value the nested bind starts from
+      obtain ⟨ivs, hinner, hwts, hirel⟩ : ∃ ivs, innerOf nfs iv = .struct ivs ∧ wts nfs ivs = true ∧
+          ∀ Init : List Val, Init[k]? = some iv → InitRel Init k (.struct ivs) (itemsFs tag 0 nfs) := by
+        cases isPtr with
+        | false =>
+          simp only [Bool.false_eq_true, if_false] at hw
+          cases iv with
+          | struct cs =>
+            exact ⟨cs, rfl, by simpa [wt] using hw, fun Init hk => lemma_initrel_same Init k _ _ hk⟩
+          | _ => simp [wt] at hw
+        | true =>
+          simp only [if_true] at hw
+          cases iv with
+          | nil =>
+            refine ⟨zeroFs nfs, by simp [innerOf, zero], lemma_wts_zero nfs, fun Init hk => ?_⟩
+            exact lemma_initrel_nil Init k _ _ hk (fun l hl => lemma_items_paths tag nfs l hl)
+          | ptr y =>
+            cases y with
+            | struct cs =>
+              refine ⟨cs, rfl, by simpa [wt] using hw, fun Init hk => ?_⟩
+              exact lemma_initrel_ptr Init k _ _ hk (fun l hl => (lemma_items_paths tag nfs l hl).1)
+            | _ => simp [wt] at hw
+          | _ => simp [wt] at hw
+      rw [hinner]
+      have hsp := hspec nfs ivs (g.push f.tagName) hwts hg hs
+      cases hr : nest nfs (.struct ivs) (g.push f.tagName) (d + 1) with
+      | panic => rw [hr] at hsp; exact hsp
+      | err e =>
+        rw [hr] at hsp
+        simp only
+        intro init hi
+        rw [h3, ← h1]
+        exact lemma_below_err P cfg g d k h.name f.tagName _ init _ e (hirel init hi) hsp
+      | ok nv =>
+        rw [hr] at hsp
+        simp only
+        intro init res hi hrv
+        rw [← h1]
+        refine lemma_below_ok P cfg g d k h.name f.tagName _ init res (.struct ivs) nv (hirel init hi) ?_ hd hsp
+        cases isPtr with
+        | false =>
+          simp only [h4, Bool.false_eq_true, if_false, rewrap] at hrv
+          exact lemma_resrel_same res k nv _ hrv
+        | true =>
+          simp only [h4, if_true, rewrap] at hrv
+          exact lemma_resrel_ptr res k nv _ hrv (fun l hl => (lemma_items_paths tag nfs l hl).1)
+
+
+/-! ### the structural binder meets the oracle -/
+
+/-- outcome of the structural binder on the fields from position `i` on -/
+def FsSpec (g : Getter) (d i : Nat) (its : List Item) (ivs : List Val) : List Val ⊕ Stop → Prop
+  | .inl rvs => rvs.length = ivs.length ∧ ∀ init res : List Val,
+      (∀ j, init[i + j]? = ivs[j]?) → (∀ j, res[i + j]? = rvs[j]?) → ItemsOK P cfg g d its (.struct init) (.struct res)
+  | .inr (.err e) => ∀ init : List Val, (∀ j, init[i + j]? = ivs[j]?) → ItemsErr P cfg g d its (.struct init) e
+  | .inr .panic => False
+
+theorem lemma_itemsFld_nested (k : Nat) (h : FieldHdr) (sub : List Fld) (hex : h.exported = true) (han : h.anon = false) :
+    itemsFld tag k h (.struct sub) = nestedItems tag k h sub ∧
+    itemsFld tag k h (.ptr (.struct sub)) = nestedItems tag k h sub := by
+  constructor <;>
+  · simp only [itemsFld, nestedItems, hex, han, Bool.not_true, Bool.false_eq_true, if_false]
+    cases tagNames (h.tag tag) h.name (tag == .form) <;> rfl
+
+theorem lemma_itemsFld_embedded (k : Nat) (h : FieldHdr) (sub : List Fld) (hex : h.exported = true) (han : h.anon = true) :
+    itemsFld tag k h (.struct sub) = (itemsFs tag 0 sub).map (Item.under k) ∧
+    itemsFld tag k h (.ptr (.struct sub)) = (itemsFs tag 0 sub).map (Item.under k) := by
+  constructor <;> simp [itemsFld, hex, han]
+
+theorem lemma_itemsFld_unexported (k : Nat) (h : FieldHdr) (t : Ty) (hex : h.exported = false) :
+    itemsFld tag k h t = [] := by
+  cases t with
+  | ptr e => cases e <;> simp [itemsFld, hex]
+  | _ => simp [itemsFld, hex]
+
+theorem lemma_fldspec_nil (g : Getter) (d k : Nat) (iv : Val) : FldSpec P cfg g d k [] iv (.inl iv) := by
+  intro init res _ _
+  exact lemma_itemsOK_nil P cfg g d _ _
+
+def embLift (wrap : Val → Val) : List Val ⊕ Stop → Val ⊕ Stop
+  | .inl cs' => .inl (wrap (.struct cs'))
+  | .inr o => .inr o
+
+/-- the sub-struct result of an embedded field, lifted to the embedding struct -/
+theorem lemma_embedded_lift (g : Getter) (d k : Nat) (sub : List Fld) (cs : List Val) (iv : Val) (wrap : Val → Val)
+    (hinit : ∀ Init : List Val, Init[k]? = some iv → InitRel Init k (.struct cs) (itemsFs tag 0 sub))
+    (hres : ∀ (Res : List Val) (cs' : List Val), Res[k]? = some (wrap (.struct cs')) →
+      ResRel Res k (.struct cs') (itemsFs tag 0 sub))
+    (r : List Val ⊕ Stop) (h : FsSpec P cfg g d 0 (itemsFs tag 0 sub) cs r) :
+    FldSpec P cfg g d k ((itemsFs tag 0 sub).map (Item.under k)) iv (embLift wrap r) := by
+  cases r with
+  | inl cs' =>
+    intro init res hi hr
+    exact lemma_under_ok P cfg g d k _ init res (.struct cs) (.struct cs') (hinit init hi) (hres res cs' hr)
+      (h.2 cs cs' (fun j => by simp) (fun j => by simp))
+  | inr o =>
+    cases o with
+    | panic => exact h
+    | err e =>
+      intro init hi
+      exact lemma_under_err P cfg g d k _ init (.struct cs) e (hinit init hi) (h cs (fun j => by simp))
+
+mutual
+theorem lemma_ref_fld (hP : FloatSane P) (g : Getter) (hs : srcOK g.src = true) (d : Nat)
+    (hn : d + 1 ≤ cfg.maxDepth → NestSpec P cfg tag nest (d + 1)) (k : Nat) (h : FieldHdr) :
+    ∀ (t : Ty) (iv : Val), wt t iv = true → inGrammar t = true →
+      FldSpec P cfg g d k (itemsFld tag k h t) iv (refFld P cfg nest tag g d h t iv)
+  | .struct sub, iv, hw, hg => by
+    have hgs : inGrammarFs sub = true := by simpa [inGrammar] using hg
+    unfold refFld
+    by_cases hex : h.exported = true
+    · simp only [hex, Bool.not_true, Bool.false_eq_true, if_false]
+      by_cases han : h.anon = true
+      · simp only [han, if_true]
+        rw [(lemma_itemsFld_embedded tag k h sub hex han).1]
+        cases iv with
+        | struct cs =>
+          have hwc : wts sub cs = true := by simpa [wt] using hw
+          have ih := lemma_ref_fs hP g hs d hn sub 0 cs hwc hgs
+          have := lemma_embedded_lift P cfg tag g d k sub cs (.struct cs) id
+            (fun Init hk => lemma_initrel_same Init k _ _ hk)
+            (fun Res cs' hk => lemma_resrel_same Res k _ _ hk) _ ih
+          dsimp only
+          cases hr : refFs P cfg nest tag g d sub cs with
+          | inl cs' => rw [hr] at this; simpa [embLift] using this
+          | inr o => rw [hr] at this; simpa [embLift] using this
+        | _ => simp [wt] at hw
+      · have han' : h.anon = false := by simpa using han
+        simp only [han', Bool.false_eq_true, if_false]
+        rw [(lemma_itemsFld_nested tag k h sub hex han').1]
+        exact lemma_nested_fld P cfg nest tag g hs d hn k h sub false iv hgs (by simpa using hw)
+    · have hex' : h.exported = false := by simpa using hex
+      simp only [hex', Bool.not_false, if_true, lemma_itemsFld_unexported tag k h _ hex']
+      exact lemma_fldspec_nil P cfg g d k iv
+  | .ptr (.struct sub), iv, hw, hg => by
+    have hgs : inGrammarFs sub = true := by simpa [inGrammar] using hg
+    unfold refFld
+    by_cases hex : h.exported = true
+    · simp only [hex, Bool.not_true, Bool.false_eq_true, if_false]
+      by_cases han : h.anon = true
+      · simp only [han, if_true]
+        rw [(lemma_itemsFld_embedded tag k h sub hex han).2]
+        have hpaths := fun l hl => (lemma_items_paths tag sub l hl).1
+        cases iv with
+        | ptr y =>
+          cases y with
+          | struct cs =>
+            have hwc : wts sub cs = true := by simpa [wt] using hw
+            have ih := lemma_ref_fs hP g hs d hn sub 0 cs hwc hgs
+            have := lemma_embedded_lift P cfg tag g d k sub cs (.ptr (.struct cs)) Val.ptr
+              (fun Init hk => lemma_initrel_ptr Init k _ _ hk hpaths)
+              (fun Res cs' hk => lemma_resrel_ptr Res k _ _ hk hpaths) _ ih
+            dsimp only
+            cases hr : refFs P cfg nest tag g d sub cs with
+            | inl cs' => rw [hr] at this; simpa [embLift] using this
+            | inr o => rw [hr] at this; simpa [embLift] using this
+          | _ => simp [wt] at hw
+        | nil =>
+          simp only
+          by_cases hany : (flatten P tag sub).any (wants g) = true
+          · simp only [hany, if_true]
+            have ih := lemma_ref_fs hP g hs d hn sub 0 (zeroFs sub) (lemma_wts_zero sub) hgs
+            have := lemma_embedded_lift P cfg tag g d k sub (zeroFs sub) .nil Val.ptr
+              (fun Init hk => lemma_initrel_nil Init k _ _ hk (fun l hl => lemma_items_paths tag sub l hl))
+              (fun Res cs' hk => lemma_resrel_ptr Res k _ _ hk hpaths) _ ih
+            cases hr : refFs P cfg nest tag g d sub (zeroFs sub) with
+            | inl cs' => rw [hr] at this; simpa [embLift] using this
+            | inr o => rw [hr] at this; simpa [embLift] using this
+          · -- no promoted field receives a value: the pointer stays nil, every leaf below is untouched
+            have hany' : (flatten P tag sub).any (wants g) = false := by simpa using hany
+            simp only [hany', Bool.false_eq_true, if_false]
+            have hun := lemma_untouched_fs P cfg tag g hs sub [] 0 hgs (by
+              intro f hf
+              simp only [List.any_eq_false] at hany'
+              simpa using hany' f hf)
+            intro init res hi hr
+            constructor
+            · intro l hl
+              simp only [List.mem_map] at hl
+              obtain ⟨x, hx, hxl⟩ := hl
+              have hux := hun x hx
+              cases x with
+              | node n => simp [Item.under] at hxl
+              | leaf l0 =>
+                simp only [Item.under, Item.leaf.injEq] at hxl
+                subst hxl
+                obtain ⟨⟨a, r, hp⟩, hu2⟩ := hux
+                rw [lemma_keyed_under, lemma_amb_path]
+                rcases hu2 with h | h
+                · exact Or.inl h
+                · right
+                  have hvi : valAt (.struct init) (k :: (keyed g l0).path) = none := by
+                    show valAt (.struct init) (k :: l0.path) = none
+                    rw [lemma_valAt_cons init k l0.path _ hi, hp, lemma_valAt_nil]
+                  have hvr : valAt (.struct res) (k :: (keyed g l0).path) = none := by
+                    show valAt (.struct res) (k :: l0.path) = none
+                    rw [lemma_valAt_cons res k l0.path _ hr, hp, lemma_valAt_nil]
+                  refine ⟨none, ?_, ?_⟩
+                  · simp only [expect, hvi]
+                    exact h _
+                  · simp only [holds, hvi, hvr]
+            · intro n hn'
+              simp only [List.mem_map] at hn'
+              obtain ⟨x, hx, hxl⟩ := hn'
+              have hux := hun x hx
+              cases x with
+              | leaf l0 => simp [Item.under] at hxl
+              | node n0 => exact absurd hux (by simp [Untouched])
+        | _ => simp [wt] at hw
+      · have han' : h.anon = false := by simpa using han
+        simp only [han', Bool.false_eq_true, if_false]
+        rw [(lemma_itemsFld_nested tag k h sub hex han').2]
+        exact lemma_nested_fld P cfg nest tag g hs d hn k h sub true iv hgs (by simpa using hw)
+    · have hex' : h.exported = false := by simpa using hex
+      simp only [hex', Bool.not_false, if_true, lemma_itemsFld_unexported tag k h _ hex']
+      exact lemma_fldspec_nil P cfg g d k iv
+  | .prim p, iv, hw, hg => by
+    simp only [refFld]
+    by_cases hex : h.exported = true
+    · have : itemsFld tag k h (.prim p) = leafItems tag k h (.prim p) := by
+        simp only [itemsFld, leafItems, leafAt]
+        cases h.exported <;> cases tagNames (h.tag tag) h.name (tag == .form) <;> rfl
+      simp only [hex, Bool.not_true, Bool.false_eq_true, if_false, this]
+      exact lemma_leaf_fld P cfg nest tag hP g hs d k h _ (by simpa [inGrammar] using hg) iv hex
+    · have hex' : h.exported = false := by simpa using hex
+      simp only [hex', Bool.not_false, if_true, lemma_itemsFld_unexported tag k h _ hex']
+      exact lemma_fldspec_nil P cfg g d k iv
+  | .slice e, iv, hw, hg => by
+    simp only [refFld]
+    by_cases hex : h.exported = true
+    · have : itemsFld tag k h (.slice e) = leafItems tag k h (.slice e) := by
+        simp only [itemsFld, leafItems, leafAt]
+        cases h.exported <;> cases tagNames (h.tag tag) h.name (tag == .form) <;> rfl
+      simp only [hex, Bool.not_true, Bool.false_eq_true, if_false, this]
+      exact lemma_leaf_fld P cfg nest tag hP g hs d k h _ (by simpa [inGrammar] using hg) iv hex
+    · have hex' : h.exported = false := by simpa using hex
+      simp only [hex', Bool.not_false, if_true, lemma_itemsFld_unexported tag k h _ hex']
+      exact lemma_fldspec_nil P cfg g d k iv
+  | .map e, iv, hw, hg => by
+    simp only [refFld]
+    by_cases hex : h.exported = true
+    · have : itemsFld tag k h (.map e) = leafItems tag k h (.map e) := by
+        simp only [itemsFld, leafItems, leafAt]
+        cases h.exported <;> cases tagNames (h.tag tag) h.name (tag == .form) <;> rfl
+      simp only [hex, Bool.not_true, Bool.false_eq_true, if_false, this]
+      exact lemma_leaf_fld P cfg nest tag hP g hs d k h _ (by simpa [inGrammar] using hg) iv hex
+    · have hex' : h.exported = false := by simpa using hex
+      simp only [hex', Bool.not_false, if_true, lemma_itemsFld_unexported tag k h _ hex']
+      exact lemma_fldspec_nil P cfg g d k iv
+  | .ptr (.prim p), iv, hw, hg => by
+    simp only [refFld]
+    by_cases hex : h.exported = true
+    · have : itemsFld tag k h (.ptr (.prim p)) = leafItems tag k h (.ptr (.prim p)) := by
+        simp only [itemsFld, leafItems, leafAt]
+        cases h.exported <;> cases tagNames (h.tag tag) h.name (tag == .form) <;> rfl
+      simp only [hex, Bool.not_true, Bool.false_eq_true, if_false, this]
+      exact lemma_leaf_fld P cfg nest tag hP g hs d k h _ (by simpa [inGrammar] using hg) iv hex
+    · have hex' : h.exported = false := by simpa using hex
+      simp only [hex', Bool.not_false, if_true, lemma_itemsFld_unexported tag k h _ hex']
+      exact lemma_fldspec_nil P cfg g d k iv
+  | .ptr (.ptr e), iv, hw, hg => by simp [inGrammar, leafTy] at hg
+  | .ptr (.slice e), iv, hw, hg => by
+    simp only [refFld]
+    by_cases hex : h.exported = true
+    · have : itemsFld tag k h (.ptr (.slice e)) = leafItems tag k h (.ptr (.slice e)) := by
+        simp only [itemsFld, leafItems, leafAt]
+        cases h.exported <;> cases tagNames (h.tag tag) h.name (tag == .form) <;> rfl
+      simp only [hex, Bool.not_true, Bool.false_eq_true, if_false, this]
+      exact lemma_leaf_fld P cfg nest tag hP g hs d k h _ (by simpa [inGrammar] using hg) iv hex
+    · have hex' : h.exported = false := by simpa using hex
+      simp only [hex', Bool.not_false, if_true, lemma_itemsFld_unexported tag k h _ hex']
+      exact lemma_fldspec_nil P cfg g d k iv
+  | .ptr (.map e), iv, hw, hg => by
+    simp only [refFld]
+    by_cases hex : h.exported = true
+    · have : itemsFld tag k h (.ptr (.map e)) = leafItems tag k h (.ptr (.map e)) := by
+        simp only [itemsFld, leafItems, leafAt]
+        cases h.exported <;> cases tagNames (h.tag tag) h.name (tag == .form) <;> rfl
+      simp only [hex, Bool.not_true, Bool.false_eq_true, if_false, this]
+      exact lemma_leaf_fld P cfg nest tag hP g hs d k h _ (by simpa [inGrammar] using hg) iv hex
+    · have hex' : h.exported = false := by simpa using hex
+      simp only [hex', Bool.not_false, if_true, lemma_itemsFld_unexported tag k h _ hex']
+      exact lemma_fldspec_nil P cfg g d k iv
+theorem lemma_ref_fs (hP : FloatSane P) (g : Getter) (hs : srcOK g.src = true) (d : Nat)
+    (hn : d + 1 ≤ cfg.maxDepth → NestSpec P cfg tag nest (d + 1)) :
+    ∀ (fs : List Fld) (i : Nat) (ivs : List Val), wts fs ivs = true → inGrammarFs fs = true →
+      FsSpec P cfg g d i (itemsFs tag i fs) ivs (refFs P cfg nest tag g d fs ivs)
+  | [], i, ivs, hw, _ => by
+    cases ivs with
+    | nil =>
+      simp only [refFs, itemsFs, FsSpec]
+      exact ⟨by trivial, fun init res _ _ => lemma_itemsOK_nil P cfg g d _ _⟩
+    | cons _ _ => simp [wts] at hw
+  | (h, t) :: rest, i, [], hw, _ => by simp [wts] at hw
+  | (h, t) :: rest, i, v :: vs, hw, hg => by
+    simp only [wts, Bool.and_eq_true] at hw
+    simp only [inGrammarFs, Bool.and_eq_true] at hg
+    have ihf := lemma_ref_fld hP g hs d hn i h t v hw.1 hg.1
+    have ihs := lemma_ref_fs hP g hs d hn rest (i+1) vs hw.2 hg.2
+    simp only [refFs, itemsFs]
+    cases hr : refFld P cfg nest tag g d h t v with
+    | inr o =>
+      rw [hr] at ihf
+      cases o with
+      | panic => exact ihf
+      | err e =>
+        intro init hi
+        exact lemma_itemsErr_left P cfg g d _ _ _ e (ihf init (by simpa using hi 0))
+    | inl v' =>
+      rw [hr] at ihf
+      simp only
+      have shift : ∀ (l : List Val) (w : Val) (ws : List Val), (∀ j, l[i + j]? = (w :: ws)[j]?) →
+          ∀ j, l[i + 1 + j]? = ws[j]? := by
+        intro l w ws hl j
+        have := hl (j + 1)
+        simpa [Nat.add_assoc, Nat.add_comm 1 j] using this
+      cases hrs : refFs P cfg nest tag g d rest vs with
+      | inr o =>
+        rw [hrs] at ihs
+        cases o with
+        | panic => exact ihs
+        | err e =>
+          intro init hi
+          exact lemma_itemsErr_right P cfg g d _ _ _ e (ihs init (shift init v vs hi))
+      | inl vs' =>
+        rw [hrs] at ihs
+        refine ⟨by simp [ihs.1], ?_⟩
+        intro init res hi hrr
+        rw [lemma_itemsOK_append]
+        exact ⟨ihf init res (by simpa using hi 0) (by simpa using hrr 0),
+               ihs.2 init res (shift init v vs hi) (shift res v' vs' hrr)⟩
+end
+
 end Rivaas.Bind
